@@ -340,6 +340,7 @@ inductive Resp where
   | grpc (n : Nat)       -- 200 + trailers `grpc-status: n`
   | grpcH (n : Nat)      -- 200, `grpc-status: n` in the headers ("Trailers-Only"), no trailers
   | stall                -- body read, never answered (the request times out)
+  | stallH               -- body read, response HEADERS (200) sent, then silence: no message, no trailers
   | rstB                 -- connection dropped before the body is read
   | rstA                 -- connection dropped after the body is read
   deriving Repr, DecidableEq, Inhabited
@@ -351,6 +352,10 @@ inductive Transport where
 /-- Does a response head reach the client (`send_request(..).await` returns `Ok`)? -/
 def Resp.headArrives : Resp → Bool
   | .stall => false | .rstB => false | .rstA => false | _ => true
+
+/-- Does the response body (and, for gRPC, the trailers) finish arriving? -/
+def Resp.bodyEnds : Resp → Bool
+  | .stallH => false | _ => true
 
 /-- The collector's own view: did it acknowledge the request? -/
 def Resp.isAck : Resp → Bool
@@ -373,10 +378,14 @@ def Resp.grpcStatus : Resp → Option Nat
     HTTP (client.rs:422-441): success iff 200 ≤ status < 300.
     gRPC (client.rs:492-534, after the `fix:` for non-2xx / trailers-only responses): a non-2xx HTTP status
     fails; otherwise `status` starts from the `grpc-status` header (0 when absent), is overwritten by a
-    `grpc-status` trailer, and the request succeeded iff it is 0. -/
+    `grpc-status` trailer, and the request succeeded iff it is 0. The body is streamed to its end inside the
+    request timeout (http.rs:343-386 wraps connect, send and the response handler in one `timeout`), so a
+    response that stalls after its headers is a timeout failure — with the sender already put back in the slot.
+    The HTTP handler never reads the body. -/
 def interpret : Transport → Resp → Bool
   | .http, r => decide (200 ≤ r.httpStatus) && decide (r.httpStatus < 300)
-  | .grpc, r => decide (200 ≤ r.httpStatus) && decide (r.httpStatus < 300) && r.grpcStatus.getD 0 == 0
+  | .grpc, r =>
+    decide (200 ≤ r.httpStatus) && decide (r.httpStatus < 300) && r.bodyEnds && r.grpcStatus.getD 0 == 0
 
 /-- One request as the collector records it. -/
 structure Entry where
